@@ -118,8 +118,13 @@ def convert_outcome(paths, out, icf_path):
         return "other:" + type(e).__name__
 
 
-def finished(out):
-    return os.path.exists(os.path.join(out, ".zmetadata"))
+def finished(out, explode_stage=True):
+    """does an output of the conversion present as complete?  The Zarr store's consolidated metadata; and, for input
+    sets that the explode stage has to reject (duplicates, overlaps, incompatible headers), also the completion marker
+    of the intermediate store next to it.  Undeclared filters and the `length` clash are detected while encoding: there
+    the intermediate store is complete and correct, only the final store must not appear."""
+    icf = os.path.join(os.path.dirname(out), "o.icf")
+    return os.path.exists(os.path.join(out, ".zmetadata")) or (explode_stage and os.path.exists(os.path.join(icf, "metadata.json")))
 
 
 def part_b(ctx):
@@ -328,7 +333,7 @@ def part_b(ctx):
         o = convert_outcome([p], out, icfp)
         kid = INFO_RESERVED.index(key) if key in INFO_RESERVED else 100
         m = ctx.model.call(1302, [[200, kid], [], 0])  # DP=200 then the key
-        if key in INFO_RESERVED and (o == "ok" or finished(out)):
+        if key in INFO_RESERVED and (o == "ok" or finished(out, explode_stage=(key != "length"))):
             ctx.fail(doc, dict(outcome=o), f"INFO key '{key}' clashing with a reserved array was accepted")
         if key not in INFO_RESERVED and o != "ok":
             ctx.fail(doc, dict(outcome=o), "harmless INFO key rejected")
@@ -364,7 +369,7 @@ def part_b(ctx):
         o = convert_outcome([p], out, icfp)
         ids = {"PASS": 0, "q10": 1}
         m = ctx.model.call(1303, [[0, 1], [[ids.get(x, 50 + j) for j, x in enumerate(rec[3].split(";"))] for rec in places[place](used)]])
-        if not declared_ok and (o == "ok" or finished(out)):
+        if not declared_ok and (o == "ok" or finished(out, explode_stage=False)):
             ctx.fail(doc, dict(outcome=o), f"filter '{used}' used but not declared was accepted")
         if declared_ok and o != "ok":
             ctx.fail(doc, dict(outcome=o), "declared filter rejected")
